@@ -96,6 +96,9 @@ ShapesQuick == {
   [kind |-> "lin", min |-> 0,   max |-> 30,  nbins |-> 3, unit |-> 1, xs |-> <<100001, 100002, 100011, 100012, 100021, 100022, 100031, 100032, 5>>],
   [kind |-> "lin", min |-> -4,  max |-> 12,  nbins |-> 4, unit |-> 1, xs |-> <<-5, 0, 11, 12, 200001, 200002, 200003, 200004>>],
   [kind |-> "log", b |-> 10, m |-> 2, nbins |-> 3, xs |-> <<0, 1, 9, 40, 200001, 200002, 200003, 200004>>],
+  \* wide logarithmic histograms: the upper edges b^(k/m) lie beyond 2^63 (values next to those edges by code)
+  [kind |-> "log", b |-> 10, m |-> 1, nbins |-> 24, xs |-> <<0, 1, 5, 100, 100181, 100192, 100201, 100232, 100241, 100242>>],
+  [kind |-> "log", b |-> 7,  m |-> 2, nbins |-> 50, xs |-> <<0, 1, 7, 50, 100441, 100452, 100491, 100492, 100501, 100502>>],
   [kind |-> "log", b |-> 10, m |-> 1, nbins |-> 3, xs |-> <<100001, 100002, 100011, 100012, 100021, 100022, 100031, 100032, 7>>],
   [kind |-> "log", b |-> 2,  m |-> 3, nbins |-> 5, xs |-> <<100001, 100002, 100011, 100022, 100041, 100042, 100051, 100052, 3>>],
   [kind |-> "lin", min |-> 0,   max |-> 64,  nbins |-> 4, unit |-> 8, xs |-> <<-200, -9, -1, 0, 15, 16, 17, 63, 64, 700>>],
